@@ -19,11 +19,11 @@ Report == LET r == Recs[i]
                     \/ \E x \in Slots : a[x] # -1 /\ a[x] # x[2] /\ a[x] \in 1..S
               \* known finding (known_findings.json): when every node's seg id equals its node id the importer
               \* returns the source array untouched, so unlisted labels are not cleared
-              shortcut == /\ r.via \in {"df", "dfpos", "builder"} /\ r.exc = ""
+              shortcut == /\ r.via \in {"df", "dfpos", "builder", "tiffdir"} /\ r.exc = "" /\ r.extra = 0
                           /\ \A x \in Slots : a[x] # -1 => a[x] = x[2]
                           /\ o = sg /\ Rng(r.gnodes) = NodeIds(a)
           IN /\ Bump(1) /\ (nt => Bump(2))
-             /\ \/ (r.exc = "" /\ RelabelOK(sg, a, o, Rng(r.gnodes)))
+             /\ \/ (r.exc = "" /\ r.extra = 0 /\ RelabelOK(sg, a, o, Rng(r.gnodes)))
                 \/ (shortcut /\ PrintT(<<"KNOWN", "C13-identity-shortcut", i>>))
                 \/ (~shortcut /\ PrintT(<<"FAIL", "C13", i>>))
 Post == PrintT(<<"COUNTS", <<TLCGet(1), TLCGet(2)>>>>)
